@@ -88,6 +88,14 @@ theorem fmap_terminates_clean (c : FmapChan.Cfg) (s : FmapChan.State) (hr : (Fma
   have hi := FmapChan.inv_reachable c s hr
   exact hi.outClosed.mp (hi.seenC hf).1
 
+/-- one item at a time: the forwarder takes the next item off the input only when it holds nothing — the result of
+item n has been handed over (buffered in `out` or taken by the consumer) before item n+1 is taken; so a producer that
+waits for the consumer to have the result of an item before sending the next one is never kept waiting for ever -/
+theorem fmap_result_offered_before_next_taken (c : FmapChan.Cfg) (s s' : FmapChan.State)
+    (h : (FmapChan.lts c).step s .fRecv = some s') : FmapChan.held s.pc = [] ∧ s.pc = .recv := by
+  simp only [FmapChan.lts, FmapChan.step] at h
+  (repeat' split at h) <;> (try cases h) <;> simp_all [FmapChan.held]
+
 /-- termination under every schedule: each step strictly decreases `FmapChan.measure`, so a run from
 the initial state has at most `measure init` steps; with `fmap_progress` every maximal run ends in a
 final state -/
@@ -377,6 +385,22 @@ theorem joinsel_close_after_drained (c : JoinSelect.Cfg) (s : JoinSelect.State)
 theorem joinsel_progress (c : JoinSelect.Cfg) (s : JoinSelect.State) (hr : (JoinSelect.lts c).Reachable s)
     (hnf : ¬ JoinSelect.final s) : (JoinSelect.lts c).Enabled s :=
   JoinSelect.progress c s (JoinSelect.inv_reachable c s hr) (by simpa [JoinSelect.final] using hnf)
+
+/-- `select` = any ready case: at the loop head EVERY live input that has an item buffered, or is closed, can be
+served — the goroutine never commits to one input while another is ready (and an unbuffered producer is served by the
+joint step `pSend i`) -/
+theorem joinsel_serves_any_ready_input (c : JoinSelect.Cfg) (s : JoinSelect.State)
+    (hr : (JoinSelect.lts c).Reachable s) (i : Nat) (hin : i < c.n) (hpc : s.pc = .sel) (hl : s.liveIn i = true)
+    (hready : (s.ch i).buf ≠ [] ∨ (s.ch i).closed = true) :
+    ((JoinSelect.lts c).step s (.sRecv i)).isSome = true := by
+  have hnp := (JoinSelect.inv_reachable c s hr).np
+  have hnle : ¬ c.n ≤ i := by omega
+  cases hb : (s.ch i).buf with
+  | cons v rest => simp [JoinSelect.lts, JoinSelect.step, hnp, hnle, hpc, hl, hb]
+  | nil =>
+    rcases hready with h | h
+    · exact absurd hb h
+    · simp [JoinSelect.lts, JoinSelect.step, hnp, hnle, hpc, hl, hb, h]
 
 theorem joinsel_terminates_clean (c : JoinSelect.Cfg) (s : JoinSelect.State)
     (hr : (JoinSelect.lts c).Reachable s) (hf : JoinSelect.final s) : s.pc = .done := by
